@@ -253,11 +253,17 @@ class Exprs:
         return ("call", c["key"], tuple(self.operand(a) for a in t["args"]), c.get("display", ""))
 
 
+# getters / predicates of the packed move: pure functions of a by-value argument
+PURE_CALL_PREFIXES = ("inkayaku_board::board::Move::get_", "inkayaku_board::board::Move::is_")
+
+
 def _params_only(t, depth=0):
     if not isinstance(t, tuple) or depth > 20:
         return False
     if t[0] in ("param", "c"):
         return True
+    if t[0] == "call" and t[1].startswith(PURE_CALL_PREFIXES):
+        return all(_params_only(a[1] if a[0] == "&" else a, depth + 1) for a in t[2])
     if t[0] == "bin":
         return _params_only(t[2], depth + 1) and _params_only(t[3], depth + 1)
     if t[0] in ("un", "cast"):
